@@ -198,8 +198,24 @@ def rule_residual(facts):
     # lo = max(W, p*L), hi = p*L + L
     okr = False
     W = BS = None
-    if lo2[0] == "call" and lo2[1] == "max" and len(lo2[2]) == 2:
-        W, off = lo2[2]
+    mx = None
+    if lo2[0] == "call" and re.search(r"(^|::)max(::<\w+>)?$", lo2[1]) and len(lo2[2]) == 2:
+        mx = lo2[2]
+    elif lo2[0] == "case" and len(lo2[2]) == 2:
+        # `if a < b { b } else { a }` and its variants are max(a, b)
+        cmp_ = E.strip_casts(lo2[1])
+        arms_ = dict(lo2[2])
+        if isinstance(cmp_, tuple) and cmp_[0] == "bin" and cmp_[1] in ("Lt", "Le", "Gt", "Ge") and 0 in arms_ and 1 in arms_:
+            a_, b_ = E.strip_casts(cmp_[2]), E.strip_casts(cmp_[3])
+            t_, f_ = E.strip_casts(arms_[1]), E.strip_casts(arms_[0])
+            big, small = (b_, a_) if cmp_[1] in ("Lt", "Le") else (a_, b_)
+            if E.canon(t_) == E.canon(big) and E.canon(f_) == E.canon(small):
+                mx = (a_, b_)
+    if mx is not None:
+        # the warm-up length is the operand that does not depend on the partition index
+        W, off = mx
+        if E.mentions(W, lambda x: x == idx1):
+            W, off = off, W
         offn = NFX(norm.nf(off))
         hin = NFX(norm.nf(d2[3]))
         # off must be idx1 * L with L = BS >> PO
@@ -277,6 +293,12 @@ def rule_residual(facts):
         if e[0] == "case":
             sc = E.strip_casts(e[1])
             g = False
+            glabel = 1
+            if sc[0] == "bin" and sc[1] in ("Ge", "Gt") and E.is_c(E.strip_casts(sc[3])):
+                # `if bound >= LIMIT { wide sum } else { 32-bit sum }`: the guarded arm is the false one
+                lim = E.strip_casts(sc[3])[1] - (0 if sc[1] == "Ge" else -1)
+                sc = ("bin", "Lt", sc[2], E.C(lim))
+                glabel = 0
             if sc[0] == "bin" and sc[1] in ("Lt", "Le") and E.is_c(E.strip_casts(sc[3])) and E.strip_casts(sc[3])[1] <= 2 ** 32 - 1:
                 lhs = E.strip_casts(sc[2])
                 parts = None
@@ -294,8 +316,13 @@ def rule_residual(facts):
                     g = bool(mx) and len(others) == 1 and E.canon(others[0]) in nbound
             ok = True
             for lab, v in e[2]:
-                ok = ok and sums_of(v, src, guarded=(g and lab == 1))
+                ok = ok and sums_of(v, src, guarded=(g and lab == glabel))
             return ok
+        if e[0] == "sumloop":
+            # explicit accumulation loop over the vector: for x in &src { acc += *x as usize }
+            d = e[1]
+            body = E.strip_casts(e[2])
+            return d[0] == "coll" and E.strip_casts(d[2]) == E.strip_casts(src) and body == ("elem", d[1])
         if e[0] == "itersum":
             it = e[1]
             while isinstance(it, tuple) and it[0] in ("map", "iter"):
